@@ -97,6 +97,14 @@ CONN_INPUT_SITES = {
 }
 
 
+# (the step may be made by the helper or, just before calling it, by the
+# one function that calls it)
+ONLY_CALLER = {
+    'SEND_SETTINGS': {'_acknowledge_settings': '_receive_settings_frame'},
+    'SEND_GOAWAY': {'_terminate_connection': 'receive_data'},
+}
+
+
 def check_input_sites(ctx, sites, inputs=None):
     """Every call and every frame handler steps the connection machine with
     its own input (send_data with SEND_DATA, the DATA handler with
@@ -106,6 +114,10 @@ def check_input_sites(ctx, sites, inputs=None):
         if inputs is not None and inp not in inputs:
             continue
         got = {f.name for f, _ in sites.get(inp, ())}
+        # a helper that has one caller and that caller are the same site
+        for helper, caller in ONLY_CALLER.get(inp, {}).items():
+            if caller in got and helper not in got:
+                got = (got - {caller}) | {helper}
         ctx.ob('TAB.inputs', 'connection.H2Connection', 'fed %s' % inp,
                got == exp, '%s is fed by %s%s' % (
                    inp, sorted(got) or 'nobody',
